@@ -4,6 +4,7 @@ import (
 	"encoding/xml"
 	"fmt"
 	"net/url"
+	"sync"
 	"time"
 
 	"github.com/beevik/etree"
@@ -65,8 +66,33 @@ func (m EntitiesDescriptor) MarshalXML(e *xml.Encoder, _ xml.StartElement) error
 	return e.Encode(aux)
 }
 
+// maxEntitiesDescriptorDepth is how deeply EntitiesDescriptor elements may be nested.
+const maxEntitiesDescriptorDepth = 1000
+
+// entitiesDescriptorDepth counts, per decoder, the EntitiesDescriptor elements that
+// are being unmarshalled. encoding/xml restarts its own depth accounting inside every
+// custom UnmarshalXML, so without this count a deeply nested document recurses until
+// the goroutine stack is exhausted, which kills the process.
+var entitiesDescriptorDepth sync.Map // *xml.Decoder -> int
+
 // UnmarshalXML implements xml.Unmarshaler
 func (m *EntitiesDescriptor) UnmarshalXML(d *xml.Decoder, start xml.StartElement) error {
+	depth := 0
+	if v, ok := entitiesDescriptorDepth.Load(d); ok {
+		depth = v.(int)
+	}
+	if depth >= maxEntitiesDescriptorDepth {
+		return fmt.Errorf("EntitiesDescriptor elements nested more than %d deep", maxEntitiesDescriptorDepth)
+	}
+	entitiesDescriptorDepth.Store(d, depth+1)
+	defer func() {
+		if depth == 0 {
+			entitiesDescriptorDepth.Delete(d)
+		} else {
+			entitiesDescriptorDepth.Store(d, depth)
+		}
+	}()
+
 	type Alias EntitiesDescriptor
 	aux := &struct {
 		ValidUntil    *RelaxedTime `xml:"validUntil,attr,omitempty"`
